@@ -44,10 +44,11 @@ def wave_case(draw):
     allbelow = draw(st.integers(0, 7)) == 0
     if allbelow:
         w = [100.0 + (x % 1800.0) for x in w]
-    return dict(kind=kind, w=w, unit=draw(st.sampled_from(['AA', 'nm', 'um'])), func=draw(st.sampled_from(['airtovac', 'vactoair'])))
+    return dict(kind=kind, w=w, unit=draw(st.sampled_from(['AA', 'nm', 'um'])), func=draw(st.sampled_from(['airtovac', 'vactoair'])),
+                idtype=draw(st.sampled_from(['i8', 'i4', 'u2', 'i2', 'u4'])))
 
 
-def make_input(kind, w, unit):
+def make_input(kind, w, unit, idtype='i8'):
     import astropy.units as u
     U = dict(AA=u.AA, nm=u.nm, um=u.um)[unit]
     scale = dict(AA=1.0, nm=0.1, um=1e-4)[unit]
@@ -62,7 +63,9 @@ def make_input(kind, w, unit):
     if kind == 'array-f4':
         return np.array(w, dtype='f4'), 1.0
     if kind == 'array-int':
-        return np.array([int(round(v)) for v in w], dtype='i8'), 1.0       # whole-Angstrom wavelength grids (np.arange)
+        # whole-Angstrom wavelength grids (np.arange), also in the narrow integer types of detector / table columns
+        top = np.iinfo(idtype).max
+        return np.array([min(int(round(v)), top) for v in w], dtype=idtype), 1.0
     if kind == 'quantity-scalar':
         return (w[0] * scale) * U, scale
     return (np.array(w, dtype='f8') * scale) * U, scale
@@ -78,7 +81,7 @@ def wave_body(case):
     import astropy.units as u
     from pydl.goddard.astro import airtovac, vactoair
     f, g = (airtovac, vactoair) if case['func'] == 'airtovac' else (vactoair, airtovac)
-    arg, scale = make_input(case['kind'], case['w'], case['unit'])
+    arg, scale = make_input(case['kind'], case['w'], case['unit'], case.get('idtype', 'i8'))
     keep = copy.deepcopy(arg)
     out = call(f, arg)
     win = plain(arg) / scale                # Angstrom
@@ -188,7 +191,7 @@ def filt_case(draw):
     return dict(ntr=ntr, nx=nx, cover=cover, lo=lo, hi=hi, ranges=[list(covers[c]) for c in per_trace], direction=draw(st.sampled_from(['increasing', 'decreasing'])),
                 fam=draw(st.sampled_from(['random', 'linear', 'const'])), seed=draw(st.integers(0, 10 ** 6)), c=draw(st.sampled_from([3.0, -2.5, 1e3, 0.0])),
                 mask=draw(st.sampled_from([None, 'runs', 'runs'])), runs=[[draw(st.integers(0, ntr - 1)), draw(st.integers(1, nx - 30)), draw(st.integers(1, 25))] for _ in range(3)],
-                toair=draw(st.booleans()), wset=draw(st.sampled_from([False, False, True])), maskval=draw(st.sampled_from([1, -1, 7, -2147483648])), alpha=draw(uf), beta=draw(uf), shift=[draw(uf) for _ in range(4)])
+                toair=draw(st.booleans()), wset=draw(st.sampled_from([False, False, True])), grid=draw(st.sampled_from(['log', 'log', 'log', 'linear-wide'])), maskval=draw(st.sampled_from([1, -1, 7, -2147483648])), alpha=draw(uf), beta=draw(uf), shift=[draw(uf) for _ in range(4)])
 
 
 def filt_body(case):
@@ -202,6 +205,9 @@ def filt_body(case):
         l0 = math.log10(case['ranges'][t][0]) + jit
         l1 = math.log10(case['ranges'][t][1]) + jit
         ll = l0 + (l1 - l0) * k / (nx - 1)
+        if case.get('grid') == 'linear-wide' and not case['wset']:
+            # a grid linear in wavelength from the far UV to the near IR: d(log lambda) per pixel changes by a factor ~100 along the trace
+            ll = np.log10(100.0 + (11000.0 - 100.0) * k / (nx - 1))
         rows.append(ll if case['direction'] == 'increasing' else ll[::-1].copy())
     logwave = np.array(rows)
     wave = 10 ** logwave
@@ -278,7 +284,7 @@ def filt_body(case):
 
 
 def filt_classify(case):
-    return ['cover:' + case['cover'], case['direction'], 'mixed-coverage' if len({tuple(r) for r in case['ranges']}) > 1 else 'same-coverage', 'fam:' + case['fam'], ('maskval:%d' % case.get('maskval', 1)) if case['mask'] else 'nomask', 'wset' if case['wset'] else 'waveimg',
+    return ['grid:' + case.get('grid', 'log'), 'cover:' + case['cover'], case['direction'], 'mixed-coverage' if len({tuple(r) for r in case['ranges']}) > 1 else 'same-coverage', 'fam:' + case['fam'], ('maskval:%d' % case.get('maskval', 1)) if case['mask'] else 'nomask', 'wset' if case['wset'] else 'waveimg',
             'toair' if case['toair'] else 'vacuum']
 
 
